@@ -230,6 +230,18 @@ Theorem c19_chain_append_last : forall i m ms q,
   chain_get (add_sys i false m ms) q = match chain_get ms q with Some f => Some f | None => asks q m end.
 Proof. exact chain_append_last. Qed.
 
+(** [add_sys] as translated (what each branch does with the new member): today's branches are the ones above; with
+    the branches swapped a priority member would be consulted last (witness). *)
+Theorem c19_chain_add_sys_today : forall priority m ms,
+  add_sys2 (InsertAt 0) Append priority m ms = add_sys 0 priority m ms.
+Proof. exact add_sys2_today. Qed.
+Theorem c19_chain_add_sys_swapped_refuted :
+  let m1 := member_of fixed_zip [([120], [1])] [] in
+  let m2 := member_of fixed_zip [([120], [2])] [] in
+  chain_get (add_sys2 Append (InsertAt 0) true m2 [m1]) [120] = Some ([120], [1])
+  /\ chain_get (add_sys2 (InsertAt 0) Append true m2 [m1]) [120] = Some ([120], [2]).
+Proof. exact add_sys2_swapped_refuted. Qed.
+
 (** A subfolder-restricted member is asked for "<prefix>/<name>", an unrestricted one for the name ... *)
 Theorem c19_chain_prefix_relative : forall p q,
   clean p = true -> is_prefix [SL] q = false -> full_name p q = slash p ++ SL :: slash q.
